@@ -31,7 +31,7 @@ def scenarios(rep, tier, seed):
         lattice = i % 3 == 0
         met = "log_squared_euclidean" if i % 4 == 0 else rng.choice(metrics)
         kind = "semi" if i % 4 == 3 else "sup"
-        scn = S.random_float_scenario(rng, kind=kind, metric=met, n=rng.randrange(3, 13), nu=(rng.randrange(0, 4) if kind == "semi" else 0), nq=rng.randrange(4, 12), lattice=lattice)
+        scn = S.random_float_scenario(rng, kind=kind, metric=met, n=rng.randrange(2, 13), nu=(rng.randrange(0, 4) if kind == "semi" else 0), nq=rng.randrange(4, 12), lattice=lattice)
         # resubstitution-style queries: the training rows themselves (reaches the early exit that stops one short)
         if i % 5 == 0:
             scn["Q"] = scn["Q"] + list(scn["I_train"])
